@@ -27,6 +27,7 @@ def run(ctx):
     bad, a, b = pvlib.diff_streams(ctx, "murmur.hash", ops)
     spec_ops = [o.replace("murmur.hash", "murmur.spec.hash").replace("murmur.native", "murmur.spec.hash") for o in ops]
     pvlib.judge_by_spec(ctx, "murmur", ops, a, b, spec_ops, "reference MurmurHash64A", "PV.Murmur.hash64A vs util/murmur_hash.cc")
+    case_tools(ctx)
     # tools: mmhsum = chained hash over 1 MiB reads (seed 0); order_independent_hash = sum of per-line hashes (seed 0)
     for _ in range(12 if ctx.tier == "quick" else 60):
         n = rng.choice([0, 1, 7, 8, 9, 1000, rng.randrange(0, 5000)])
@@ -51,6 +52,53 @@ def run(ctx):
                                    "got": out.decode(errors="replace"), "want": str(tot)},
                                    summary=f"order_independent_hash prints {out!r}, sum of reference hashes is {tot}")
             break
+
+
+def case_tools(ctx):
+    """train_case writes the case model keyed by MurmurHash64A(lowered target, MurmurHash64A(source)); apply_case must look the
+    same keys up: the key column equals the model's caseKey, and the trained model re-cases the text it was trained on."""
+    rng = ctx.rng
+    vocab = ["Cat", "Paris", "NASA", "iPhone", "Dog", "Rome", "McDonald", "Zebra", "Lyon", "Oslo"]
+    for trial in range(6 if ctx.tier == "quick" else 60):
+        n = rng.randrange(2, 7)
+        src = ["start"] + [rng.choice(vocab) + str(rng.randrange(3)) for _ in range(n)]
+        tgt = ["Debut"] + [rng.choice(vocab) + "x" * rng.randrange(0, 9) for _ in range(n)]
+        giza = ("# Sentence pair (1) source length %d target length %d alignment score : 0.1\n%s\nNULL ({ }) " % (len(src), len(tgt), " ".join(tgt)) +
+                " ".join("%s ({ %d })" % (w, i + 1) for i, w in enumerate(src)) + "\n").encode()
+        fa, fs, ft, fm = (os.path.join(ctx.tmp, x) for x in ("giza.txt", "src.txt", "tgt.txt", "model.txt"))
+        open(fa, "wb").write(giza)
+        open(fs, "wb").write((" ".join(src) + "\n").encode())
+        open(ft, "wb").write((" ".join(tgt) + "\n").encode())
+        st, out, err = pvlib.run_tool([ctx.bin("train_case"), fa, fs, ft], b"", env=pvlib.san_env())
+        ctx.count("train_case", 1, [(tuple(src), tuple(tgt))])
+        want = {}
+        for i in range(1, len(src)):
+            k = pvlib.run_lines(pvlib.PVDRIVER, [f"murmur.casekey {hx(src[i].encode())} {hx(tgt[i].lower().encode())}"])[0].split()[1]
+            want.setdefault(k, set()).add(tgt[i])
+        got = {}
+        for ln in out.decode().split("\n"):
+            if ln:
+                parts = ln.split("\t")
+                got[parts[0]] = set(p.split(" ")[0] for p in parts[1:])
+        if st != 0 or got != want:
+            pvlib.report_violation(ctx, "train_case:" + " ".join(src) + "|" + " ".join(tgt), {
+                "argv": ["train_case", "<giza>", "<source>", "<target>"], "files": {"giza": giza.decode(), "source": " ".join(src), "target": " ".join(tgt)},
+                "got_keys": sorted(got), "want_keys": sorted(want), "status": st},
+                summary=f"train_case wrote keys {sorted(got)[:2]}... but MurmurHash64A(lowered target, MurmurHash64A(source)) gives {sorted(want)[:2]}...")
+            return
+        open(fm, "wb").write(out)
+        fa2 = os.path.join(ctx.tmp, "align.txt")
+        open(fa2, "wb").write(("0 ||| " + " ".join(f"{i}-{i}" for i in range(1, len(src))) + "\n").encode())
+        open(ft, "wb").write((" ".join(w.lower() for w in tgt) + "\n").encode())
+        st, out2, err = pvlib.run_tool([ctx.bin("apply_case"), fa2, fs, ft, fm], b"", env=pvlib.san_env())
+        ctx.count("apply_case", 1, [(tuple(src), tuple(tgt))])
+        expect = (" ".join([tgt[0].lower()] + tgt[1:]) + "\n").encode()
+        if st != 0 or out2 != expect:
+            pvlib.report_violation(ctx, "apply_case:" + " ".join(src) + "|" + " ".join(tgt), {
+                "argv": ["apply_case", "<align>", "<source>", "<lowercased target>", "<model from train_case>"], "model": out.decode(), "got": out2.decode(errors="replace"),
+                "want": expect.decode(), "status": st},
+                summary=f"apply_case with the model train_case just wrote does not restore the casing: {out2!r} instead of {expect!r} (keys incompatible)")
+            return
 
 
 def replay(ctx, rp):
